@@ -6,10 +6,12 @@ JSON-able case descriptions and on the lab's recorded logs.
 from __future__ import annotations
 
 import json
+import re
 
 from .lab import Probe, SpinGuard
 
 _BIG = 10**18
+_ADDR = re.compile(r" at 0x[0-9a-fA-F]+")
 
 
 def coldify(x):
@@ -41,6 +43,9 @@ def strip_obs(c):
         if len(c) == 2 and c[0] == "obs" and isinstance(c[1], int) and not isinstance(c[1], bool):
             return ["obs"]
         return [strip_obs(e) for e in c]
+    if isinstance(c, str) and " at 0x" in c:
+        # canon() falls back to repr() for dataclasses (TimeInterval/Timestamp); an Observable inside prints its address
+        return _ADDR.sub("", c)
     return c
 
 
